@@ -136,6 +136,15 @@ def flag_case(v, via, tmp):
     env = {"HOME": tmp}
     if via == "env":
         env["ZENO_MIN_SPACE_REQUIRED"] = str(v)
+    if via in ("alias-file", "flag+stale-alias"):
+        # the operator's configuration file ($HOME/zeno-config.yaml): the short key `msr`, alone or left over next to the flag
+        import tempfile as _tf
+        home = _tf.mkdtemp(prefix="h", dir=tmp)
+        env["HOME"] = home
+        with open(os.path.join(home, "zeno-config.yaml"), "w") as f:
+            f.write("msr: %s\n" % (v if via == "alias-file" else 100))
+        if via == "flag+stale-alias":
+            args = ["get", "url", "--min-space-required", repr(v) if isinstance(v, float) else str(v), "http://origin.invalid/"]
     doc = {"args": args, "probes": [[str(a), str(b)] for a, b in flag_probes(float(v))]}
     rc, out, err = core.run_impl("flags", [json.dumps(doc)], env=env, timeout=60)
     last = [l for l in out if l.startswith("{")]
@@ -157,6 +166,7 @@ def flagpath(ctx, n):
         j = json.load(open(os.path.join(fd, f)))
         jobs.append((j["value"], j["via"]))
     jobs += [(v, "flag") for v in vals] + [(v, "env") for v in vals[: max(6, n)]]
+    jobs += [(v, "alias-file") for v in [0.5, 0.25, 20, 1.5, 0.999, 3]] + [(v, "flag+stale-alias") for v in [0.5, 0.75, 2, 0.1]]
     tmp = tempfile.mkdtemp(prefix="c18home")
     try:
         with ThreadPoolExecutor(12) as ex:
